@@ -13,7 +13,9 @@
 #define CT_H
 #include "verif.h"
 
+#ifndef CT_MAX
 #define CT_MAX 160
+#endif
 #ifdef VERIF_CBMC
 static unsigned char ct_tr[2][CT_MAX];
 static unsigned ct_n[2];
